@@ -4,8 +4,14 @@ Accepted forms (every cycle of the loop must pass through the progress call, and
   iter     - `Iterator::next` of a finite std iterator; the None arm leaves the loop
   readx    - `read_exact` on a cursor; the is_err()==true edge (or the Err arm) leaves the loop
   readn    - `read_until` / `read_line` / `read`; the returned count is compared with 0 and the ==0 edge leaves the loop
+  readb    - `read_until` / `read_line` into a buffer that is a fresh empty Vec/String on every cycle and is mutably borrowed only by
+             that read; an exit tests the emptiness (len == 0 / is_empty) of a value derived from the buffer by content-preserving or
+             shrinking conversions (from_utf8, trim, ...): at the end of input the read appends nothing, the value is empty, the edge leaves
   counter  - the exit test compares a counter that every cycle strictly increases with a loop-invariant bound
-Everything else is reported (triage: allowlist with a termination argument, or known finding with a hanging input)."""
+Everything else is reported (triage: allowlist with a termination argument, or known finding with a hanging input).
+Assumption of readn/readb: the exit test is not by-passed at the end of input (a `continue` that skips it is taken only for a
+non-empty read). Requiring the test on every cycle was tried and dropped: it reported
+Range::parse_multipart_body_with_boundary, whose `continue` is taken only for a line that is not UTF-8, i.e. not empty."""
 from .cfg import cfg_of
 from .callgraph import callee_name
 from .dataflow import du_of, place_key, val_ref_target
@@ -25,7 +31,7 @@ class Loop:
         self.ordinal = 0
 
     def key(self):
-        return "%s|loop|%d" % (self.fn.def_, self.ordinal)
+        return "%s|loop|%s" % (self.fn.def_, self.ordinal)
 
 
 def loops_of(fn):
@@ -39,10 +45,18 @@ def loops_of(fn):
         for be in bes:
             body |= cfg.natural_loop(be)
         out.append(Loop(fn, h, body, bes))
-    # ordinal by source line of the header
+    # ordinal path by nesting and source line of the header: "2" = second top-level loop, "2.1" = first loop nested directly in it.
+    # (wrapping code in a new loop changes the keys of the loops inside it, so a stale allowlist entry cannot match by accident)
     out.sort(key=lambda l: (cfg.blocks[l.header]["term"]["span"]["line"], l.header))
-    for i, l in enumerate(out):
-        l.ordinal = i + 1
+    for l in out:
+        encl = [o for o in out if o is not l and l.header in o.body and l.body < o.body]
+        l.parent = min(encl, key=lambda o: len(o.body)) if encl else None
+    def number(parent, prefix):
+        kids = [l for l in out if l.parent is parent]
+        for i, l in enumerate(kids):
+            l.ordinal = "%s%d" % (prefix, i + 1)
+            number(l, l.ordinal + ".")
+    number(None, "")
     return out
 
 
@@ -144,6 +158,11 @@ def classify(fn, loop):
                     if _edge_leaves(cfg, loop, edge):
                         loop.form, loop.why = "readn", "exits when the read returns 0 bytes"
                         return
+        # ---- read into a fresh buffer, exit on an empty line ----
+        if (decl in READN or name in READN) and not name.endswith("Read>::read") and decl != "std::io::Read::read" and len(t["args"]) >= 2:
+            if _on_every_cycle(cfg, loop, bid) and _readb(cfg, du, loop, t, bid):
+                loop.form, loop.why = "readb", "exits when the line read into a fresh buffer is empty (end of input)"
+                return
     # ---- counter ----
     hb = cfg.blocks
     for sb in sorted(loop.body):
@@ -163,6 +182,113 @@ def classify(fn, loop):
                                 loop.form, loop.why = "counter", "bounded counter advanced on every cycle"
                                 return
     loop.form = None
+
+
+SHRINKING = ("std::string::String::from_utf8", "::unwrap", "::expect", "as std::convert::From<", "std::ops::Deref>::deref", "::as_slice", "::as_str", "::as_bytes",
+             "::trim", "::trim_start", "::trim_end", "std::string::ToString>::to_string", "::to_vec", "std::clone::Clone>::clone", "::to_owned", "as std::convert::AsRef<", "::to_lowercase", "::to_uppercase",
+             "::into_bytes", "as std::convert::Into<", "::as_ref", "as std::borrow::Borrow<", "::as_mut_str")
+EMPTY_NEW = ("std::vec::Vec::<T>::new", "std::string::String::new", "std::vec::Vec::<T>::with_capacity", "std::string::String::with_capacity")
+
+
+def _from_buffer(du, v, B, depth=0, blocks=None):
+    """the value is empty whenever the local B (a Vec<u8> / String) is empty: B itself or a content-preserving / shrinking conversion of it.
+    Returns the list of blocks whose calls compute the chain (None when v does not derive from B)."""
+    if blocks is None:
+        blocks = []
+    if depth > 14:
+        return None
+    if v[0] == "ref":
+        if v[1][0] == B:
+            return blocks if all(e == "*" for e in v[1][1]) else None
+        # re-borrow `&*r` of a reference-typed local, `&x` of an owned local, `&(x as Ok).0` of a Result: all derived from x
+        return _from_buffer(du, ("place", (v[1][0], ())), B, depth + 1, blocks)
+    if v[0] == "place":
+        if v[1][0] == B and all(e == "*" for e in v[1][1]):
+            return blocks
+        if v[1][0] == B:
+            return None
+        # a projection (the Ok payload moved out by a `match`, a deref) of a local derived from the buffer
+        ds = du.defs.get(v[1][0], [])
+        if not ds:
+            return None
+        for d in ds:
+            if d[0] == "call":
+                if _from_buffer(du, du.val_call(d[3], depth + 1, d[1]), B, depth + 1, blocks) is None:
+                    return None
+            elif d[0] == "assign":
+                if _from_buffer(du, du.val_rvalue(d[3], depth + 1, d[1]), B, depth + 1, blocks) is None:
+                    return None
+            else:
+                return None
+        return blocks
+    if v[0] == "call" and v[1] and v[2] and any(x in v[1] for x in SHRINKING):
+        blocks.append(v[3])
+        return _from_buffer(du, v[2][0], B, depth + 1, blocks)
+    return None
+
+
+def _readb(cfg, du, loop, t, bid):
+    bv = du.val_operand(t["args"][-1])
+    if bv[0] != "ref" or bv[1][1]:
+        return False
+    B = bv[1][0]
+    ds = du.defs.get(B, [])
+    if not ds:
+        return False
+    empties = {d[1] for d in ds if d[0] == "call" and (callee_name(d[3]) or "") in EMPTY_NEW}
+    writers = {d[1] for d in ds if d[1] not in empties}
+    for b2, blk in du.blocks.items():
+        for st in blk["stmts"]:
+            rv = st.get("rv") or {}
+            if rv.get("k") in ("ref", "rawptr") and (rv.get("mut") or rv.get("k") == "rawptr"):
+                pk = du.canon(place_key(rv["place"]))
+                if pk[0] == B and b2 != bid:
+                    writers.add(b2)
+    # (A) the buffer is empty when the read starts: every path into the read passes a `= Vec::new()` after the last other write
+    if not empties:
+        return False
+    if bid in cfg.reachable_from(cfg.entry, removed_nodes=empties):
+        return False
+    for w in writers | {bid}:
+        for s2 in cfg.succ.get(w, []):
+            if s2 not in empties and bid in cfg.reachable_from(s2, removed_nodes=empties):
+                return False
+
+    def fresh_at(block):
+        """no write to B between this read and `block` (paths that pass the read again re-establish it)"""
+        after = cfg.reachable_from(bid)
+        for w in writers | empties:
+            if w != bid and w in after and block in cfg.reachable_from(w, removed_nodes=(bid,)) and w != block:
+                return False
+        return block in after
+    # (B) an exit tests the emptiness of a value derived from the buffer as this read left it
+    for sb in loop.body:
+        st = cfg.blocks[sb]["term"]
+        if st["k"] != "switch":
+            continue
+        v = strip_casts(du.val_operand(st["discr"]))
+        empty_when = None
+        chain = None
+        if v[0] == "binop" and v[1] in ("Eq", "Ne"):
+            a, b = strip_casts(v[2]), strip_casts(v[3])
+            x = a if const_int(b) == 0 else (b if const_int(a) == 0 else None)
+            if x is not None and x[0] == "call" and x[1] and x[1].endswith("::len") and x[2]:
+                chain = _from_buffer(du, x[2][0], B)
+                if chain is not None:
+                    chain = chain + [x[3]]
+                    empty_when = (v[1] == "Eq")
+        elif v[0] == "call" and v[1] and v[1].endswith("::is_empty") and v[2]:
+            chain = _from_buffer(du, v[2][0], B)
+            if chain is not None:
+                chain = chain + [v[3]]
+                empty_when = True
+        if empty_when is None or not all(fresh_at(cb) for cb in chain):
+            continue
+        for val, tb in st["targets"]:
+            edge = (sb, tb) if (bool(val) == empty_when) else (sb, st["otherwise"])
+            if _edge_leaves(cfg, loop, edge):
+                return True
+    return False
 
 
 def _is_count_of(du, v, call_block, depth=0):
